@@ -19,6 +19,13 @@ Theorem C04_trace_is_protocol_prefix : forall itoa c t, tdir t <> [] ->
 Proof. exact trace_is_protocol_prefix. Qed.
 Print Assumptions C04_trace_is_protocol_prefix.
 
+(* ... where [ended] only ends the last line of what is already there: the next generator's text never
+   continues a line of the previous one's *)
+Theorem C04_contributions_are_separated : forall b,
+  (ended b = b \/ ended b = b ++ nl) /\ (b <> [] -> exists b', ended b = b' ++ nl).
+Proof. exact ended_spec. Qed.
+Print Assumptions C04_contributions_are_separated.
+
 (* naming systems returned by a generator are visible to that generator only *)
 Theorem C04_namers_private : forall c g,
   visible_namers c g = match gnamers g with
@@ -38,7 +45,7 @@ Theorem C04_file_merge : forall itoa c t pord g files ev files',
   gen_step itoa c t pord g files = (ev, inr files') ->
   let gord := accepted (gfilter g) pord in
   (exists f', find_file (gfilename g) files' = Some f' /\
-     fbody f' = match find_file (gfilename g) files with Some f => fbody f | None => [] end ++ emitted itoa g gord /\
+     fbody f' = ended (match find_file (gfilename g) files with Some f => fbody f | None => [] end) ++ emitted itoa g gord /\
      fheader f' = match find_file (gfilename g) files with Some f => fheader f | None => theader t end /\
      ftype f' = gfiletype g) /\
   (forall n, n <> gfilename g -> find_file n files' = find_file n files).
@@ -59,5 +66,5 @@ Definition ex_g2 := {| gname := s "g2"; gfilter := [2%N]; gnamers := None; gfile
 Example C04_example :
   let c := {| order := [2%N; 0%N; 1%N]; namers := [s "raw"]; filetypes := [s "go"]; assemble_fails := [] |} in
   let t := {| tname := s "t"; tpath := s "p"; tdir := s "d"; tfilter := [1%N; 2%N]; theader := s "// h"; tgens := [ex_g1; ex_g2] |} in
-  option_map (map fbody) (r_files (exec_target Tracker.itoa_dec c t)) = Some [s "I1;T2T1F1;I2;U2"].
+  option_map (map fbody) (r_files (exec_target Tracker.itoa_dec c t)) = Some [s "I1;T2T1F1;" ++ nl ++ s "I2;U2"].
 Proof. vm_compute. reflexivity. Qed.
